@@ -21,7 +21,7 @@
                       above osc_num_params are dead: rewritten before read) *)
 From Coq Require Import NArith List Bool.
 From AV Require Import Generated.Table Generated.ParseCfg Spec.Vt Model.Base Model.Parser
-  Model.ParseCfg Proofs.ParseCfg.
+  Model.ParseCfg Proofs.ParseCfg Model.Utf8parse Generated.ParserFn Proofs.ParserGen.
 Import ListNotations.
 Local Open Scope N_scope.
 
@@ -137,3 +137,39 @@ Example c20_example_1030 :
   pc_events (pc_cfg_of false true) input = Some (EOsc [[48]; repeat 65 (N.to_nat 1030); [120]] true :: tail) /\
   pc_events (pc_cfg_of false false) input = Some (EOsc [[48]; repeat 65 (N.to_nat 1030); [120]] true :: tail).
 Proof. vm_compute. repeat split; reflexivity. Qed.
+
+(* ---- the tie by translation, configuration-dependent parts (Generated/ParserFn.v, tools/gen_fn_parser.py) ----- *)
+
+(* the translated code (`#[cfg(feature = "core")]` blocks as `if cfg_core c`, the accumulator chosen by `utf8`),
+   started from the translated Parser::new(), is the model the theorems above run, in every configuration *)
+Theorem c20_translated_parser_is_model :
+  forall c bs, g_run c (g_parser_new c) [] bs = run c parser_new bs.
+Proof. exact translated_parser_from_new. Qed.
+
+(* Parser::new() does not depend on the features *)
+Theorem c20_translated_new_cfg_independent :
+  forall c1 c2, g_parser_new c1 = g_parser_new c2.
+Proof. exact g_parser_new_cfg_independent. Qed.
+
+(* DefaultCharAccumulator: without `utf8` it is AsciiParser, whose add is `unreachable!`; with `utf8` it is
+   Utf8Parser: the utf8parse decoder, the callbacks storing the code point / U+FFFD *)
+Theorem c20_translated_char_add_no_utf8 :
+  forall c u b, utf8_on c = false -> g_char_add c u b = None.
+Proof. exact g_char_add_no_utf8. Qed.
+
+Theorem c20_translated_char_add_utf8 :
+  forall c u b, utf8_on c = true ->
+  g_char_add c u b =
+  Some (fst (u8_parser_advance u b),
+        match snd (u8_parser_advance u b) with U8None => None | U8Codepoint cp => Some cp | U8Invalid => Some 65533 end).
+Proof. exact g_char_add_utf8. Qed.
+
+(* Action::OscPut as translated: ArrayVec::is_full, the cfg(core) guard, and ArrayVec::push with ITS panic on a full
+   buffer (the hand model has none); storing a payload byte never panics, in any configuration *)
+Theorem c20_translated_osc_put_is_model :
+  forall c p perf b, g_perform_action c p perf AOscPut b = acc perf (perform_action c p AOscPut b).
+Proof. exact g_osc_put_eq. Qed.
+
+Theorem c20_translated_osc_put_push_never_panics :
+  forall c p perf b, b <> 59 -> g_perform_action c p perf AOscPut b <> None.
+Proof. exact g_osc_put_byte_no_panic. Qed.
